@@ -192,6 +192,11 @@ def main():
             def do_probe(fn):
                 try:
                     mod, _, rest = fn.partition("::")
+                    # functions of nested source modules (terminal::unix::get_cols) are emitted flat in the unit's module
+                    segs = rest.split("::")
+                    while len(segs) > 1 and segs[0][:1].islower() and "<" not in segs[0]:
+                        segs = segs[1:]
+                    rest = "::".join(segs)
                     xa = ["--verify-only-module", mod, "--verify-function", rest] if "<" not in rest else []
                     # a contradictory contract proves `false` at once; a small resource limit keeps honest probes cheap
                     _, res2, r2 = run_unit(specname, work, probe_fn=fn, extra_args=xa + ["--rlimit", "4"])
